@@ -1,0 +1,57 @@
+// Licensed to Apache Software Foundation (ASF) under one or more contributor
+// license agreements. See the NOTICE file distributed with
+// this work for additional information regarding copyright
+// ownership. Apache Software Foundation (ASF) licenses this file to you under
+// the Apache License, Version 2.0 (the "License"); you may
+// not use this file except in compliance with the License.
+// You may obtain a copy of the License at
+//
+//     http://www.apache.org/licenses/LICENSE-2.0
+//
+// Unless required by applicable law or agreed to in writing,
+// software distributed under the License is distributed on an
+// "AS IS" BASIS, WITHOUT WARRANTIES OR CONDITIONS OF ANY
+// KIND, either express or implied.  See the License for the
+// specific language governing permissions and limitations
+// under the License.
+
+//go:build verif
+
+// Contracts for the verification harness (comment-only; compiled only with -tags verif).
+// Syntax: see /verif/DESIGN.md §2.2.
+
+package sdk
+
+//@ property C13
+//
+// Chain evaluation is fail-open per link: a link may clear keep bits only through a well-formed verdict (nil
+// error, no panic, exactly one bit per trace); otherwise the running mask is left untouched.
+//
+//@ func Sampler.Decide
+//@   assumed plugin code behind an interface: arbitrary result, may return an error, may panic; it must not retain or mutate engine storage (documented READ-ONLY contract)
+//@   opt may-panic
+//@   ensures result0.Keep == nil || fresh(result0.Keep)
+//@ func func:onBypass
+//@   assumed observer callback supplied by the host (logging / metrics only)
+//
+//@ func evaluateChainLink
+//@   mode int
+//@   requires batch != nil && sampler != nil
+//@   ensures  wellformed: result1 ==> len(result0.Keep) == len(batch.Traces)
+//@   ensures  foreign:    result1 ==> result0.Keep == nil || fresh(result0.Keep)
+//@ func applyChainLink
+//@   mode int
+//@   requires batch != nil && sampler != nil && len(mask) == len(batch.Traces)
+//@   modifies mask[0:len(mask)]
+//@   ensures  narrows: forall i :: 0 <= i && i < len(mask) ==> (mask[i] ==> old(mask[i]))
+//@   loop 0 invariant forall i :: 0 <= i && i < len(mask) ==> (mask[i] ==> old(mask[i]))
+//@ func EvaluateChainInto
+//@   mode int
+//@   requires batch != nil
+//@   modifies mask[0:cap(mask)]
+//@   ensures  aligned:  len(result.Keep) == len(batch.Traces)
+//@   ensures  nolinks:  len(samplers) == 0 ==> (forall i :: 0 <= i && i < len(result.Keep) ==> result.Keep[i])
+//@   ensures  nillink:  len(samplers) == 1 && samplers[0] == nil ==> (forall i :: 0 <= i && i < len(result.Keep) ==> result.Keep[i])
+//@   loop 0 invariant forall i :: 0 <= i && i < range_i ==> mask[i]
+//@   loop 1 invariant forall i :: 0 <= i && i < range_i ==> mask[i]
+//@   loop 2 invariant len(samplers) == 0 ==> (forall i :: 0 <= i && i < len(mask) ==> mask[i])
